@@ -45,6 +45,8 @@ def run(ctx, sess, P, G, T, reach, roots, exc):
     ctx.rule('C10.21', 'bounded appends: every entries[entry_count++] store into the fixed-size index and summary buffers of the time-series writer is preceded on every path by a compare of that entry_count with the allocated capacity')
     ctx.rule('C10.22', 'count-bounded writes: in a count-down loop (`while (n)` with n decremented in the body) every store through a pointer that the loop advances is separated from every decrement of n by the loop test, so that no byte is written once the count has reached 0')
     ctx.rule('C10.23', 'scratch capacity agrees with its fill bound: a buffer from jls_core_f64_buf_alloc(N) is handed to a filler only with the count N, and is appended to only through a counter that is reset (together with a counter advanced at least as often) when that counter reaches N')
+    ctx.rule('C10.24', 'the forward header scan ends: traced for a grid of (start position, file size) pairs with candidates that never match, jls_raw_chunk_scan returns, and it has examined exactly the 8-byte aligned offsets from the start to size - 32 in order (none skipped, none twice)')
+    ctx.rule('C10.25', 'defined conversions: a floating-point quotient whose value (directly, through locals or through round/floor/ceil) is converted to an integer has a divisor that is a non-zero constant or was compared with zero on every path from its definition to the division')
     ctx.rule('C10.12', 'no read of uninitialised instance memory: every field of a malloc\'ed instance that is read anywhere is initialised before the instance is published')
     r4(ctx, P)
     r5(ctx, P, reach)
@@ -67,6 +69,8 @@ def run(ctx, sess, P, G, T, reach, roots, exc):
     c10c.r21(ctx, P)
     c10c.r22(ctx, P)
     c10c.r23(ctx, P)
+    c10c.r24(ctx, P)
+    c10c.r25(ctx, P)
 
 
 def r4(ctx, P):
